@@ -26,7 +26,7 @@ META = dict(
          "(AddRoutes/bindRoutes, WithNotFoundHandler).",
     note="Trusted: TLC, net/http/httptest. Not generated: patterns repeating a parameter name (statement silent on "
          "which occurrence wins), unclean pattern spellings at registration, '..' in request paths, "
-         "SetNotAllowedHandler/CORS. Unsupported method = 'FOO'. Bounds: literals {a,b}, request tokens {a,b,c}, "
+         "SetNotAllowedHandler/CORS. Supported methods = the seven accepted by validMethod (DELETE, GET, HEAD, OPTIONS, PATCH, POST, PUT; all of them registered and requested in the methods7 families), unsupported method = 'FOO'. Bounds: literals {a,b}, request tokens {a,b,c}, "
          "depth <= 3, <= 3 routes exhaustive (4 in thorough), <= 8-10 routes over 3 methods in simulation.",
     technique="TLA+ reference matcher + TLC-enumerated (table, request) cases replayed on the real router",
     design="4/C03")
@@ -50,6 +50,9 @@ def consts(methods, bad, reqm, lits, par, depth, toks, dirt, maxroutes, ordered=
 BADP = '{<<>>, <<Lit("a")>>, <<Par("x")>>}'
 G, GP, GPP = '{"GET"}', '{"GET","POST"}', '{"GET","POST","PUT"}'
 REQ4 = '{"GET","POST","PUT","DELETE"}'
+# every method patRouter.validMethod accepts for registration; requests also use the unsupported one
+ALL7 = '{"DELETE","GET","HEAD","OPTIONS","PATCH","POST","PUT"}'
+REQ8 = '{"DELETE","GET","HEAD","OPTIONS","PATCH","POST","PUT","FOO"}'
 
 PLANS = {
     # single method, depth 3: literal/parameter alternatives with shared prefixes (backtracking)
@@ -59,6 +62,9 @@ PLANS = {
     "multi2": consts(GPP, '{"FOO"}', REQ4, '{"a","b"}', PAR3, 2, '{"a","b","c"}', '{"a","b"}', 2, badpats=BADP),
     "multi3a": consts(GPP, '{"FOO"}', REQ4, '{"a"}', PAR3, 2, '{"a","c"}', '{"a"}', 3, badpats=BADP),
     "multi3": consts(GPP, '{"FOO"}', REQ4, '{"a","b"}', PAR3, 2, '{"a","b","c"}', '{"a","b"}', 3, badpats=BADP),
+    # every supported method both as a route's method and as a request method (405 / Allow over all trees)
+    "methods7": consts(ALL7, '{"FOO"}', REQ8, '{"a"}', PAR3, 1, '{"a","c"}', '{"a"}', 3, badpats="{<<>>}"),
+    "methods7d2": consts(ALL7, '{"FOO"}', REQ8, '{"a","b"}', PAR3, 2, '{"a","b","c"}', '{"a"}', 2, badpats="{<<>>}"),
     # random larger tables, free registration order, two parameter names at depth 1
     "sim8": consts(GPP, '{"FOO"}', REQ4, '{"a","b"}', '<<{"x","w"},{"y"},{"z"}>>', 3, '{"a","b","c"}', '{"a","b"}', 8,
                    ordered=False, badpats=BADP, emitall=False),
@@ -131,12 +137,15 @@ def run(ctx):
         one(ctx, binp, ebinp, "deep3", "deep3", 8)
         one(ctx, binp, ebinp, "multi2", "multi2", 1)
         one(ctx, binp, ebinp, "multi3a", "multi3a", 4)
+        one(ctx, binp, ebinp, "methods7", "methods7", 4)
         one(ctx, binp, ebinp, "sim8", "sim8", 2, simulate=1500, depth=9)
     else:
         one(ctx, binp, ebinp, "deep3", "deep3", 10)
         for i, ch in enumerate(["1..4", "5..9", "10..16", "17..40"]):
             one(ctx, binp, ebinp, "deep4-%d" % i, "deep4", 200, chunk=ch)
         one(ctx, binp, ebinp, "multi3", "multi3", 20)
+        one(ctx, binp, ebinp, "methods7", "methods7", 4)
+        one(ctx, binp, ebinp, "methods7d2", "methods7d2", 10)
         one(ctx, binp, ebinp, "sim8", "sim8", 10, simulate=20000, depth=9)
         one(ctx, binp, ebinp, "sim12", "sim12", 10, simulate=10000, depth=13)
 
